@@ -45,6 +45,10 @@ def slices(tier):
         return [
             ("O3x2x3", spaces.shape_pairs(3, 2), o3, quick_menu, False),
             ("R-root3x2x2", spaces.shape_pairs(3, 2, min_obj=2), o2, quick_menu[:2], True),
+            # 4 object leaves in a chain on one species, leaves holding subsequences of abc: three nested ancestors, a
+            # family carried down past a node none of whose leaves has it
+            ("O4chainx1x3s", [(sh, None) for sh in spaces.chain_shapes(4)], [s for s in o3 if s == tuple(sorted(s))],
+             [core[0]], False),
         ]
     full = core + [c for c in EXTRA_VECTORS if spaces.coherent(c)]
     return [
